@@ -1131,12 +1131,13 @@ theorem c05_tdm_history_independent {ε : Type} (self : TdmObj ε) (K : Nat) (ev
           cases reindex (f r.events) r.pairs <;> simp
 
 /-- after any history on one manager, if the last call succeeds the object is exactly what a fresh
-manager holds after that call alone -/
-theorem c05_tdm_last_call_only {ε : Type} (self : TdmObj ε) (cs : List (TdmCall ε)) (c : TdmCall ε)
+manager holds after that call alone — whatever earlier raising calls left behind (`onRaise` arbitrary) -/
+theorem c05_tdm_last_call_only {ε : Type} (onRaise : TdmObj ε → TdmCall ε → TdmObj ε) (self : TdmObj ε)
+    (cs : List (TdmCall ε)) (c : TdmCall ε)
     (t : Tdm ε) (hc : initTrial c.K c.evs c.sel c.argsort = some t) :
-    runCalls true self (cs ++ [c]) = { events := t.events, srcEvtIdxs := some t.pairs } ∧
-    runCalls true TdmObj.fresh [c] = { events := t.events, srcEvtIdxs := some t.pairs } := by
-  have one : ∀ s : TdmObj ε, runCalls true s [c] = { events := t.events, srcEvtIdxs := some t.pairs } := by
+    runCalls true onRaise self (cs ++ [c]) = { events := t.events, srcEvtIdxs := some t.pairs } ∧
+    runCalls true onRaise TdmObj.fresh [c] = { events := t.events, srcEvtIdxs := some t.pairs } := by
+  have one : ∀ s : TdmObj ε, runCalls true onRaise s [c] = { events := t.events, srcEvtIdxs := some t.pairs } := by
     intro s
     simp only [runCalls, c05_tdm_history_independent, hc, Option.map_some]
   refine ⟨?_, one _⟩
@@ -1145,7 +1146,7 @@ theorem c05_tdm_last_call_only {ε : Type} (self : TdmObj ε) (cs : List (TdmCal
   | cons d ds ih =>
     simp only [List.cons_append, runCalls]
     cases initTrialObj true self d.K d.evs d.sel d.argsort with
-    | none => exact ih self
+    | none => exact ih _
     | some s => exact ih s
 
 /-- what `initialize_trial` without the reset would have to satisfy -/
